@@ -19,3 +19,4 @@ package zipslicer
 //@   property C11
 //@   nopanic
 //@   allocbound 0 262144
+//@   loop 1 sig "for len(extra) >= 4" invariant len(extra) <= 65535
